@@ -35,12 +35,21 @@
 //!  * `depth-growth`               limit schedule: upstream datagrams of a cycle family exceed the
 //!                                 measured constant, fall when the limit grows, or at limit 255
 //!                                 exceed the line through the values at 8 and 24
+//!  * `fanout-alias-budget`        hostile CNAME fan-out (fanout.rs): more than MAX_CNAME_LOOKUPS = 64
+//!                                 alias targets looked up upstream for one request
+//!  * `fanout-budget`              fan-out: more than 2 x (64 + 1) + zone cuts + 8 upstream queries for
+//!                                 one request, whatever the number of CNAME records per response
+//!  * `fanout-growth`              fan-out: among response sizes whose alias tree exceeds the alias
+//!                                 budget the upstream queries grow with the response size; signature
+//!                                 of the three `fanout|own=<qname|other>|sec=<layout>|<flat|nested>`
 //!  * `stub-alias-budget`          Resolver::lookup needs more than 16 upstream queries
 //!  * `panic`                      (includes `depth += 1` overflowing at limit 255)
 //!
 //! Workloads: generic worlds (gen::generate; every fifth one under a limit pair from
 //! {1,2,3,8,24,255}^2), answer-filter worlds (gen::generate_af: filter class x element x section x
-//! family x response kind, see gen.rs), limit schedule (depth.rs), stub alias chasing (stub.rs).
+//! family x response kind, see gen.rs), limit schedule (depth.rs), hostile CNAME fan-out families
+//! (fanout.rs: k CNAME records in one response, k in {2..200}, nested 1..6, any section, TCP after
+//! truncation), stub alias chasing (stub.rs).
 //!
 //! Don't-cares (not judged): which error a failing resolution returns; whether a resolution
 //! that *could* succeed does succeed (availability is C18's business) - in particular whether an
@@ -55,6 +64,7 @@
 //! generic clauses only.
 
 mod depth;
+mod fanout;
 mod gen;
 mod net;
 mod oracle;
@@ -126,7 +136,10 @@ pub(crate) enum Outcome {
 
 pub(crate) struct TopResult {
     pub outcome: Outcome,
+    /// upstream messages: datagrams + queries over accepted TCP connections
     pub sent: u64,
+    /// datagrams answered TC=1 (each followed by the same query over TCP; fan-out worlds only)
+    pub truncated: u64,
     pub cap_hit: bool,
     pub vt_ms: u64,
 }
@@ -167,16 +180,16 @@ fn run_world(w: &World) -> Result<WorldRun, String> {
             let t0 = tokio::time::Instant::now();
             let r = tokio::time::timeout(Duration::from_secs(3600), rec.resolve(q, Instant::now(), false)).await;
             let vt_ms = t0.elapsed().as_millis() as u64;
-            let (sent, cap_hit) = {
+            let (sent, truncated, cap_hit) = {
                 let st = net2.st.lock().unwrap();
-                (st.sent_this_top, st.cap_hit)
+                (st.sent_this_top, st.truncated_this_top, st.cap_hit)
             };
             let outcome = match r {
                 Ok(Ok(m)) => Outcome::Ok(m),
                 Ok(Err(e)) => Outcome::Err(e),
                 Err(_) => Outcome::VirtualTimeout,
             };
-            tops.push(TopResult { outcome, sent, cap_hit, vt_ms });
+            tops.push(TopResult { outcome, sent, truncated, cap_hit, vt_ms });
         }
         Ok::<_, String>(tops)
     })?;
@@ -274,7 +287,10 @@ fn judge(w: &World, run: &WorldRun, rep: &mut Reporter, widx: u64) {
         }
     }
     rep.add("net_datagrams", st.log.iter().filter(|c| !c.tcp).count() as u64);
-    rep.add("net_tcp_connects", st.log.iter().filter(|c| c.tcp).count() as u64);
+    rep.add("net_tcp_connects", st.log.iter().filter(|c| c.tcp && c.qname.is_empty()).count() as u64);
+    if w.fan.is_some() {
+        rep.add("net_tcp_queries", st.log.iter().filter(|c| c.tcp && !c.qname.is_empty()).count() as u64);
+    }
 
     let known_ips: BTreeSet<&str> = w.servers.iter().map(|s| s.ip.as_str()).collect();
 
@@ -552,6 +568,8 @@ fn real_main() {
             stub::replay(c, &mut rep);
         } else if c.get("depth").is_some() {
             depth::replay(c, &mut rep);
+        } else if c.get("fanout").is_some() {
+            fanout::replay(c, &mut rep);
         } else if let Some(w) = World::from_json(&c["world"]) {
             let _ = do_world(&w, &mut rep, c["world_index"].as_u64().unwrap_or(0));
         } else {
@@ -610,6 +628,7 @@ fn real_main() {
         }
     }
     depth::musts(&mut rep);
+    fanout::musts(&mut rep);
     rep.must("stub_lookups", 100);
     rep.must("stub_loop_lookups", 30);
     rep.must("stub_ok", 30);
@@ -644,6 +663,8 @@ fn real_main() {
     }
 
     depth::run(&ctx, &mut rep);
+
+    fanout::run(&ctx, &mut rep);
 
     stub::run(&ctx, &mut rep);
 
